@@ -740,7 +740,7 @@ func goBuild(dir string, outs map[string][]byte, files map[string]string) (faile
 		}
 	}
 	// a package whose only file the go tool leaves out (name ends in _test, _<GOOS>, _<GOARCH>) has no diagnostic position
-	re2 := regexp.MustCompile(`(?m)^package gen/(p[0-9]+): (build constraints exclude all Go files|no non-test Go files|no Go files)`)
+	re2 := regexp.MustCompile(`(?m)^(?:package )?gen/(p[0-9]+): (build constraints exclude all Go files|no non-test Go files|no Go files)`)
 	for _, m := range re2.FindAllStringSubmatch(string(b), -1) {
 		if _, ok := failed[m[1]]; !ok {
 			failed[m[1]] = "the go tool does not compile the file under the name the generator gave it: " + m[2]
